@@ -4,14 +4,15 @@
 //! It is intentionally kept separate from the [`crate::tc::state`] to
 //! ensure that you cannot create new type variables without use of the state.
 
-use std::{
-    collections::HashSet,
-    fmt::{Display, Formatter},
-};
+#[cfg(not(smlxl_storage_layout_extractor_verif))]
+use std::collections::HashSet;
+use std::fmt::{Display, Formatter};
 
 use ethnum::U256;
 use itertools::Itertools;
 
+#[cfg(smlxl_storage_layout_extractor_verif)]
+use crate::verif::collections::HashSet;
 use crate::{
     constant::{
         ADDRESS_WIDTH_BITS,
